@@ -40,6 +40,33 @@ theorem pushback_small (s : In) (hpb : s.pb.length ≤ 1) : (fetchC s).pbOk := (
 theorem segment_empty (crc : Bytes → Nat) : segment crc (In.ofBytes []) = [] := by
   rw [handleMessages_eq, segmentS]; simp [scan]
 
+/-- A list of non-empty lists has at most as many members as elements. -/
+theorem flatten_length_ge {α : Type} : ∀ (ls : List (List α)), (∀ l ∈ ls, l ≠ []) → ls.length ≤ ls.flatten.length
+  | [], _ => by simp
+  | l :: ls, h => by
+    have h1 : l ≠ [] := h l (by simp)
+    have h2 := flatten_length_ge ls (fun x hx => h x (by simp [hx]))
+    have : 0 < l.length := List.length_pos_iff.mpr h1
+    simp only [List.flatten_cons, List.length_append, List.length_cons]; omega
+
+/-- The handler delivers at most as many messages as it read bytes (none is empty). -/
+theorem message_count_le_bytes (crc : Bytes → Nat) (bs : Bytes) :
+    (segment crc (In.ofBytes bs)).length ≤ bs.length := by
+  have h := flatten_length_ge ((segment crc (In.ofBytes bs)).map (·.raw)) (by
+    intro l hl
+    rcases List.mem_map.mp hl with ⟨m, hm, rfl⟩
+    exact segment_nonempty crc bs m hm)
+  rw [segment_lossless, List.length_map] at h
+  exact h
+
+/-- Every delivered message's raw bytes sit in the input at the offset given by what was delivered before it. -/
+theorem message_at_offset (crc : Bytes → Nat) (bs : Bytes) (pre post : List Msg) (m : Msg)
+    (h : segment crc (In.ofBytes bs) = pre ++ m :: post) :
+    bs = (pre.map (·.raw)).flatten ++ m.raw ++ (post.map (·.raw)).flatten := by
+  have := segment_lossless crc bs
+  rw [h] at this
+  simp only [List.map_append, List.map_cons, List.flatten_append, List.flatten_cons] at this
+  rw [← this]; simp
 /-! Non-vacuity (tests). -/
 example : scan [0xD3] = .junk [0xD3] [] := by decide
 example : scan [0xD3, 0x00, 0x04, 0x4c] = .junk [0xD3, 0x00, 0x04, 0x4c] [] := by decide
